@@ -250,7 +250,7 @@ class AtomicTransaction(StoreTransaction):
             INSERT OR IGNORE INTO processed_messages (
                 message_id, processed_at, handler_type, execution_id
             ) VALUES (
-                :message_id, datetime('now', 'utc'), :handler_type, :execution_id
+                :message_id, datetime('now'), :handler_type, :execution_id
             )
             """,
             {
@@ -326,7 +326,7 @@ class AtomicTransaction(StoreTransaction):
                 cursor = self._conn.execute(
                     """
                     UPDATE stage_claims
-                    SET stage_id = :stage_id, claimed_at = datetime('now', 'utc')
+                    SET stage_id = :stage_id, claimed_at = datetime('now')
                     WHERE execution_id = :execution_id
                       AND claim_key = :claim_key
                       AND stage_id = :owner_id
